@@ -22,11 +22,11 @@ import (
 
 // srvCase is one generated history against one generated server.
 type srvCase struct {
-	Prop  string    `json:"property"`
-	Label string    `json:"label,omitempty"`
-	Spec  ra.Spec   `json:"spec"`
-	Reqs  []ra.Req  `json:"requests"`
-	Probe bool      `json:"probe,omitempty"` // append a probing request when the limit is reached and the connection is still up
+	Prop  string     `json:"property"`
+	Label string     `json:"label,omitempty"`
+	Spec  ra.Spec    `json:"spec"`
+	Reqs  []ra.Req   `json:"requests"`
+	Probe bool       `json:"probe,omitempty"` // append a probing request when the limit is reached and the connection is still up
 	Facts []ra.Facts `json:"-"`
 }
 
@@ -340,17 +340,17 @@ func buildRequest(req *ra.Req, sessionID []byte) ([]byte, ra.Facts, error) {
 // ---- running a history ----
 
 type step struct {
-	Got      string   `json:"got"` // success | partial | failure | pkok | disconnect | closed | other:<n>
-	Methods  []string `json:"methods,omitempty"`
-	Reason   uint32   `json:"reason,omitempty"`
-	Banners  int      `json:"banners,omitempty"`
-	Rounds   int      `json:"rounds,omitempty"`
-	Probe    bool     `json:"probe,omitempty"`
+	Got     string   `json:"got"` // success | partial | failure | pkok | disconnect | closed | other:<n>
+	Methods []string `json:"methods,omitempty"`
+	Reason  uint32   `json:"reason,omitempty"`
+	Banners int      `json:"banners,omitempty"`
+	Rounds  int      `json:"rounds,omitempty"`
+	Probe   bool     `json:"probe,omitempty"`
 }
 
 type srvTrace struct {
 	Steps    []step
-	Reqs     []ra.Req   // requests actually sent (history + probe)
+	Reqs     []ra.Req // requests actually sent (history + probe)
 	Facts    []ra.Facts
 	Invs     []inv
 	SrvErr   string
@@ -367,16 +367,35 @@ type srvResult struct {
 
 const caseTimeout = 20 * time.Second
 
+var (
+	dumpFile *os.File
+	dumpLen  int
+)
+
+// dumpCase records the case about to run in $VF_RUNDIR/case.json (one pwrite:
+// the file is kept open and padded with spaces to its previous length).
 func dumpCase(v any) {
 	dir := os.Getenv("VF_RUNDIR")
 	if dir == "" {
 		return
 	}
-	data, err := json.MarshalIndent(v, "", " ")
+	data, err := json.Marshal(v)
 	if err != nil {
 		return
 	}
-	os.WriteFile(filepath.Join(dir, "case.json"), data, 0o644)
+	if dumpFile == nil {
+		f, err := os.OpenFile(filepath.Join(dir, "case.json"), os.O_CREATE|os.O_WRONLY|os.O_TRUNC, 0o644)
+		if err != nil {
+			return
+		}
+		dumpFile = f
+	}
+	n := len(data)
+	for len(data) < dumpLen {
+		data = append(data, ' ')
+	}
+	dumpLen = max(dumpLen, n)
+	dumpFile.WriteAt(data, 0)
 }
 
 var probeReq = ra.Req{Method: "password", User: "u1", Password: "right"}
@@ -451,7 +470,7 @@ func runServerCase(cs *srvCase) (*srvTrace, error) {
 		}
 		return tr, herr
 	}
-	c, err := refpeer.NewClient(ca, refpeer.Config{})
+	c, err := refpeer.NewClient(ca, refpeer.Config{Kex: fastKex})
 	if err != nil {
 		return finish(fmt.Errorf("refpeer key exchange failed: %v", err))
 	}
@@ -571,3 +590,8 @@ func runServerCase(cs *srvCase) (*srvTrace, error) {
 	}
 	return finish(nil)
 }
+
+// fastKex selects refpeer's crypto/ecdh based key exchange: the default
+// curve25519 method runs the harness's math/big ladder (about 15 ms per
+// handshake), which the authentication checks do not need.
+var fastKex = []string{"ecdh-sha2-nistp256"}
